@@ -1,6 +1,7 @@
 (* Props/C07.v — property theorems only.  C07: peaks retained with their magnitude, sign, placement. *)
 From Coq Require Import ZArith QArith List.
 From GHE Require Import Base.QUtil gen.Src Model.Hybrid Proof.HybridP Proof.CalendarP.
+From GHE Require Import Proof.TwoDayP.
 Import ListNotations.
 Open Scope Q_scope.
 
@@ -47,3 +48,23 @@ Print Assumptions C07_no_pulse_without_peak.
 Theorem C07_average_only_between_windows : forall m, ipf m = false -> segments m = [(rate m, lmh m)].
 Proof. exact avg_only_outside_retention. Qed.
 Print Assumptions C07_average_only_between_windows.
+
+(* the two-day window handed to the peak-duration analysis, on HybridLoad.process_two_day_loads REGENERATED from ground_loads.py:
+   for every year of 8760 hourly loads and every peak day index d (0-based) of month i, hour j of the window is hour
+   (hours before month i) + 24 (d - 1) + j of the year, modulo 8760 — the day before the peak day and the peak day itself,
+   the year wrapping around for 1 January *)
+Theorem C07_two_day_window_ends_on_the_peak_day_rejection :
+  forall (L E : list Q) (dc dh : list nat), Z.of_nat (length L) = 8760%Z ->
+  forall i j : nat, (1 <= i <= 12)%nat -> (Z.of_nat j < 48)%Z -> (Z.of_nat (nth i dc 0%nat) < nth i daysz 0%Z)%Z ->
+  nth j (nth (i - 1) (fst (process_two_day_loads L E cal (map natQ dc) (map natQ dh) [] [])) []) 0%Q =
+  nth (Z.to_nat ((nth i cumz 0%Z + 24 * Z.of_nat (nth i dc 0%nat) + Z.of_nat j + 8736) mod 8760)%Z) L 0%Q.
+Proof. exact two_day_window_rejection. Qed.
+Print Assumptions C07_two_day_window_ends_on_the_peak_day_rejection.
+
+Theorem C07_two_day_window_ends_on_the_peak_day_extraction :
+  forall (L E : list Q) (dc dh : list nat), Z.of_nat (length L) = 8760%Z -> Z.of_nat (length E) = 8760%Z ->
+  forall i j : nat, (1 <= i <= 12)%nat -> (Z.of_nat j < 48)%Z -> (Z.of_nat (nth i dh 0%nat) < nth i daysz 0%Z)%Z ->
+  nth j (nth (i - 1) (snd (process_two_day_loads L E cal (map natQ dc) (map natQ dh) [] [])) []) 0%Q =
+  nth (Z.to_nat ((nth i cumz 0%Z + 24 * Z.of_nat (nth i dh 0%nat) + Z.of_nat j + 8736) mod 8760)%Z) E 0%Q.
+Proof. exact two_day_window_extraction. Qed.
+Print Assumptions C07_two_day_window_ends_on_the_peak_day_extraction.
